@@ -548,11 +548,12 @@ func init() {
 	register(&Check{
 		ID: "C03",
 		Expl: "Decides the part of the decision process that is visible in its shape: the predicate of the binary insertion calls the eleven pairwise comparators on (new, existing) in the documented order and maps their results correctly (E7.chain); each stage compares the documented key in the documented direction and honours its route-selection option, and each stage is mirror-symmetric — " +
-			"both decided by enumerating the stage's decision table over every consistent truth assignment of the comparisons it performs (E7.stage, E7.symmetry); and a path enters a destination's list only through the sorted insertion, which every announcement reaches (E7.sorted-insertion). The values are only touched through comparisons, so the table is finite and complete.",
+			"both decided by enumerating the stage's decision table over every consistent truth assignment of the comparisons it performs (E7.stage, E7.symmetry); and a path enters a destination's list only through the sorted insertion, which every announcement reaches (E7.sorted-insertion). The values are only touched through comparisons, so the table is finite and complete. Also: (E6.path-cache-reset) every memoised atomic field of Path is reset by both attribute mutators, so a rewritten clone is ranked by its own attributes.",
 		Not: "Transitivity across stages (MED is known to be non-transitive), the value of AS_PATH length for SET/CONFED segments, multipath prefix selection beyond its shape, and independence from arrival order as a whole are not decided.",
 		Run: func(c *Ctx) {
 			c.ruleComparatorChain()
 			c.ruleSortedInsertionOnly()
+			c.rulePathCacheReset("E6.path-cache-reset")
 		},
 	})
 }
